@@ -16,7 +16,7 @@
      or node: either one unlabelled edge and nothing else (d4's root idiom), or every edge
        carries literals and any two edges carry a complementary pair (decision / multiway
        decision; an edge into f needs only the decision literal); unlabelled edges into an f node
-       are tolerated besides (they vanish);
+       are tolerated besides (they vanish), to pairwise distinct f nodes;
      every edge: its literals are over pairwise distinct features, none of which is mentioned
        below the target (the And that replaces the edge is decomposable);
      and node: the edges (literals + what is below the target) are over pairwise disjoint feature
@@ -108,6 +108,7 @@ Definition or_ok (i : nat) : bool :=
     let es' := filter (fun e => negb (match fst e with [] => is_kind (snd e) KFalse | _ => false end)) es in
     forallb (fun e => match fst e with [] => false | _ => true end) es'
     && pairwiseb (fun a b => conflict (fst a) (fst b)) es'
+    && nodupn (map snd (filter (fun e => match fst e with [] => true | _ => false end) es))
   end.
 
 Definition edge_ok (T : list (list nat)) (e : list Z * nat) : bool :=
